@@ -10,6 +10,11 @@
 (*   Frag = "A"  vector aggregations x grouping (prefix / suffix), comparisons, topk / bottomk over every      *)
 (*               assignment of {none, s1, s2, s3} to 4 ticks                                                   *)
 (*   Frag = "H"  the 15 s shortcut at one-second resolution: ranges of 15, 16 and 20 s                         *)
+(*   Frag = "T"  a comparison written after topk / bottomk, in both directions (the threshold cuts on the side *)
+(*               the k-selection prefers or on the other), on every planning path (range of 4 s: plain path;   *)
+(*               60 s: metrics_15s shortcut; 60 s with a line filter: getFunctionOrder at a long range), over   *)
+(*               the range function, over a vector aggregation, next to the comparisons of those; databases:    *)
+(*               every assignment of 0..3 entries per range bucket to each of three series                      *)
 (*   Frag = "S"  sampled product cases (SCases)                                                                *)
 (***************************************************************************************************************)
 EXTENDS LogQLPlan, Json, SequencesExt
@@ -27,7 +32,7 @@ NoCmp == [op |-> "", k4 |-> 0]
 Cmp(op, k4) == [op |-> op, k4 |-> k4]
 MQ(fn, range, step, unit) ==
     [fn |-> fn, range |-> range, step |-> step, unit |-> unit, ugrp |-> "", uglbls |-> {}, agg |-> "", grp |-> "",
-     gpos |-> "prefix", glbls |-> {}, cmpl |-> NoCmp, cmpa |-> NoCmp, topfn |-> "", topk |-> 0]
+     gpos |-> "prefix", glbls |-> {}, cmpl |-> NoCmp, cmpa |-> NoCmp, topfn |-> "", topk |-> 0, cmpt |-> NoCmp]
 Q(m, p, from, to, mq) == [m |-> m, p |-> p, from |-> from, to |-> to, lim |-> 0, fwd |-> FALSE, mq |-> mq]
 SLeaf(l, o, v) == [t |-> "leaf", lbl |-> l, op |-> o, num |-> FALSE, val |-> v, k |-> 0]
 NLeaf(l, o, k) == [t |-> "leaf", lbl |-> l, op |-> o, num |-> TRUE, val |-> "", k |-> k]
@@ -134,19 +139,60 @@ DIsH == IF "H" \notin Frags THEN {} ELSE {m \in 1..(Pow2(Len(SecondsH)) - 1) : C
 QueriesH == IF "H" \notin Frags THEN {} ELSE
     {Q(SelA, <<>>, r, 3 * r, MQ(fn, r, r, 1)) : fn \in {"count_over_time", "rate"}, r \in {15, 16, 20}}
 
+(*--------------------------------------------- fragment T --------------------------------------------------*)
+(* digit j (base 4) of code: how many entries series j has in the range bucket [4, 8); the bucket [8, 12) holds  *)
+(* the same counts rotated by one series, so the two timestamps of one request select different series.         *)
+(* Entries of different series may share a tick.                                                                *)
+SerT(j) == CASE j = 1 -> A1 [] j = 2 -> A2 [] OTHER -> A3
+CntT(code, j) == (code \div PowN(4, j - 1)) % 4
+SlotsT(code) == {sl \in (1..3) \X (1..3) \X {0, 1} :
+                    sl[2] <= CntT(code, IF sl[3] = 0 THEN sl[1] ELSE (sl[1] % 3) + 1)}
+TickT(sl) == IF sl[3] = 0 THEN 4 + ((sl[1] + sl[2]) % 4) ELSE 8 + ((2 * sl[1] + sl[2]) % 4)
+DBOfT(code) ==
+    LET sq == SortSeq(SetToSeq(SlotsT(code)),
+                      LAMBDA x, y : TickT(x) < TickT(y) \/ (TickT(x) = TickT(y) /\ (x[1] < y[1] \/ (x[1] = y[1] /\ x[2] < y[2]))))
+    IN  [n \in 1..Len(sq) |-> MEnt(SerT(sq[n][1]), TickT(sq[n]), 1, "log", "plain", NoFld)]
+TopCmp(mq, tf, k, cm) == [mq EXCEPT !.topfn = tf, !.topk = k, !.cmpt = cm]
+QT(p, mq) == Q(SelAll, p, 4, 11, mq)
+TopFns  == {"topk", "bottomk"}
+OrdOps  == {">", ">=", "<", "<="}
+AllCmps(kOrd, kEq) == {Cmp(o, kOrd) : o \in OrdOps} \cup {Cmp(o, kEq) : o \in {"==", "!="}}
+NotF1   == <<[k |-> "lf", op |-> "!=", arg |-> "f1"]>>     \* holds for every entry of the fragment; keeps the query off the shortcut
+SumByB(mq, pos) == Agg(mq, "sum", "by", pos, {"b"})
+QueriesT == IF "T" \notin Frags THEN {} ELSE
+    (* directly over the range function; thresholds 1.5 and 2 (counts), 2.5 / range (rates)                       *)
+    {QT(<<>>, TopCmp(MQ("count_over_time", 4, 4, u), tf, k, cm)) : u \in {1, 15}, tf \in TopFns, k \in {1, 2}, cm \in AllCmps(6, 8)}
+    \cup {QT(NotF1, TopCmp(MQ("count_over_time", 4, 4, 15), tf, 1, cm)) : tf \in TopFns, cm \in AllCmps(6, 8)}
+    \cup {QT(<<>>, TopCmp(MQ("rate", 4, 4, u), tf, k, Cmp(o, 10))) : u \in {1, 15}, tf \in TopFns, k \in {1, 2}, o \in OrdOps}
+    (* step < range: every range bucket is reported at two instants                                              *)
+    \cup {QT(<<>>, TopCmp(MQ("count_over_time", 4, 2, u), tf, 1, cm)) : u \in {1, 15}, tf \in TopFns, cm \in {Cmp(">", 6), Cmp("<", 6)}}
+    (* a label filter (hoisted to time_series on every path) under the k-selection                              *)
+    \cup {QT(<<Lbl(SLeaf("a", "=", "v1"))>>, TopCmp(MQ("count_over_time", 4, 4, u), tf, 1, cm)) :
+            u \in {1, 15}, tf \in TopFns, cm \in {Cmp(">", 6), Cmp("<", 6)}}
+    (* over a vector aggregation (series A1 and A3 share b): thresholds 2.5 and 3                                *)
+    \cup {QT(<<>>, TopCmp(SumByB(MQ("count_over_time", 4, 4, u), pos), tf, 1, cm)) :
+            u \in {1, 15}, pos \in {"prefix", "suffix"}, tf \in TopFns, cm \in {Cmp(">", 10), Cmp("<", 10), Cmp("==", 12), Cmp("!=", 12)}}
+    (* two comparisons in one query: each belongs to the expression it is written after                          *)
+    \cup {QT(<<>>, [TopCmp(MQ("count_over_time", 4, 4, u), tf, 1, Cmp(o, 10)) EXCEPT !.cmpl = Cmp(">", 6)]) :
+            u \in {1, 15}, tf \in TopFns, o \in {">", "<"}}
+    \cup {QT(<<>>, [TopCmp(SumByB(MQ("count_over_time", 4, 4, u), "prefix"), tf, 1, Cmp(o, 14)) EXCEPT !.cmpa = Cmp(">", 6)]) :
+            u \in {1, 15}, tf \in TopFns, o \in {">", "<"}}
+
 (*--------------------------------------------- enumeration -------------------------------------------------*)
 Tag(f, S) == {[frag |-> f, q |-> q, db0 |-> <<>>] : q \in S}
-QSeq == SetToSeq(Tag("R", QueriesR) \cup Tag("U", QueriesU) \cup Tag("A", QueriesA) \cup Tag("H", QueriesH))
+QSeq == SetToSeq(Tag("R", QueriesR) \cup Tag("U", QueriesU) \cup Tag("A", QueriesA) \cup Tag("H", QueriesH) \cup Tag("T", QueriesT))
         \o (IF "S" \in Frags THEN (LET sc == SCases IN [i \in DOMAIN sc |-> [frag |-> "S", q |-> sc[i].q, db0 |-> sc[i].db]]) ELSE <<>>)
 DIs(f) == CASE f = "R" -> DIsR
             [] f = "U" -> DIsU
             [] f = "A" -> 1..256
             [] f = "H" -> DIsH
+            [] f = "T" -> 1..64
             [] OTHER -> {1}
 DBAt(cq, di) == CASE cq.frag = "R" -> DBOfR(di \div 64, di % 64)
                   [] cq.frag = "U" -> DBOfU(di \div 512, di % 512, FmtOfQ(cq.q))
                   [] cq.frag = "A" -> DBOfA(di - 1)
                   [] cq.frag = "H" -> DBOfH(di)
+                  [] cq.frag = "T" -> DBOfT(di - 1)
                   [] cq.frag = "S" -> cq.db0
 
 IsCase == idx % 100000 # 0
@@ -179,12 +225,25 @@ OnlyWidenedWindowContributes ==
     IsCase => LET inside == SelectSeq(c.db, LAMBDA e : WidenedFrom(c.q) <= e.t /\ e.t < WidenedTo(c.q))
               IN  EvalMetric(c.q, inside) = exp
 
+(* the comparison written after topk / bottomk only removes rows of the k-selection: every series and point of    *)
+(* the answer is one of the answer to the same query without that comparison, at most k series per instant are    *)
+(* mandatory                                                                                                      *)
+ComparisonAfterSelection ==
+    IsCase /\ c.q.mq.cmpt.op # "" =>
+        LET bare == EvalMetric([c.q EXCEPT !.mq.cmpt = NoCmp], c.db)
+        IN  /\ \A s \in exp : \E s0 \in bare : s0.lbls = s.lbls /\ s.pts \subseteq s0.pts
+            /\ \A t \in Instants(c.q) : Cardinality({s \in exp : \E p \in s.pts : p.t = t /\ ~p.opt}) <= c.q.mq.topk
+
 (* E: what the definition allows / demands, P: what the mechanism yields                                       *)
 PtsAgree(E, P) ==
     /\ \A p \in P : p.opt \/ \E e \in E : e.t = p.t /\ REq(e.v, p.v)
     /\ \A e \in E : e.opt \/ \E p \in P : p.t = e.t
 PtsOf(S, l) == UNION {s.pts : s \in {x \in S : x.lbls = l}}
-Agrees == \A l \in {s.lbls : s \in exp \cup pl.series} : PtsAgree(PtsOf(exp, l), PtsOf(pl.series, l))
+AgreesS(E, P) == \A l \in {s.lbls : s \in E \cup P} : PtsAgree(PtsOf(E, l), PtsOf(P, l))
+Agrees == AgreesS(exp, pl.series)
+(* the order of k-selection and threshold is observable on this case: the answer with the threshold applied to    *)
+(* the operand of topk / bottomk is not one the definition allows                                                 *)
+OrderObservable == c.q.mq.cmpt.op # "" /\ ~AgreesS(exp, EvalMetricCmpBeforeTop(c.q, c.db))
 Differs == pl.err \/ ~Agrees
 DevClass ==
     IF pl.err THEN "error"
@@ -196,7 +255,7 @@ PtOut(p) == [t |-> p.t, num |-> p.v.num, den |-> p.v.den, opt |-> p.opt]
 SerOut(S) == LET sq == SetToSeq(S)
              IN  [i \in 1..Len(sq) |-> [lbls |-> sq[i].lbls, pts |-> LET ps == SetToSeq(sq[i].pts) IN [j \in 1..Len(ps) |-> PtOut(ps[j])]]]
 CaseRec == [frag |-> c.frag, idx |-> idx, q |-> c.q, db |-> c.db, mexp |-> SerOut(exp),
-            dev |-> Differs, plerr |-> pl.err, mpl |-> IF Differs THEN SerOut(pl.series) ELSE <<>>]
+            dev |-> Differs, plerr |-> pl.err, mpl |-> IF Differs THEN SerOut(pl.series) ELSE <<>>, ordobs |-> OrderObservable]
 Hash == ((idx \div 100000) * 7919 + (idx % 100000) * 10007 + ExportSeed) % 1000003
 Selected == IF Differs THEN ModsDev[c.frag] > 0 /\ Hash % ModsDev[c.frag] = 0
             ELSE Mods[c.frag] > 0 /\ Hash % Mods[c.frag] = 0
